@@ -133,6 +133,7 @@ FIXED = {
  "fs:stale-checksum-after-complete": "47e9b00", "fs:stale-metadata-after-complete": "47e9b00",
  "fs:stale-checksum-after-copy": "aa68bb7", "fs:stale-metadata-after-copy": "aa68bb7",
  "fs:delete-objects-duplicate-key": "7d30be5", "fs:delete-objects-omits-missing-keys": "7d30be5",
+ "fs:list-parts-unordered": "1d762a7",
 }
 # repairs whose text says explicitly that it describes the code before the repair
 BEFORE = {"fs:head-missing-key-code", "fs:delete-missing-key-error", "fs:missing-bucket-reported-as-missing-key",
@@ -141,7 +142,8 @@ BEFORE = {"fs:head-missing-key-code", "fs:delete-missing-key-error", "fs:missing
           "fs:unknown-upload-code", "fs:list-parts-unknown-upload", "fs:part-number-not-validated",
           "fs:stale-checksum-after-complete", "fs:stale-metadata-after-complete",
           "fs:stale-checksum-after-copy", "fs:stale-metadata-after-copy",
-          "fs:delete-objects-duplicate-key", "fs:delete-objects-omits-missing-keys"}
+          "fs:delete-objects-duplicate-key", "fs:delete-objects-omits-missing-keys",
+          "fs:list-parts-unordered"}
 
 lines, findings = [], []
 for i, (cls, ops, what) in enumerate(W, 1):
